@@ -82,7 +82,7 @@ def cases(draw):
     if not lease and draw(st.integers(0, 4)) == 0:
         # somebody (a supervisor, a network-change hook) asks for a reconnect while the very first connect() is still waiting for
         # its transport's handshake: there is nothing to reconnect yet, the first connection has to come up as usual
-        case['early_reconnect'] = {'connect_ticks': draw(st.sampled_from([2, 3, 5])), 'at': draw(st.sampled_from([0, 1, 2])),
+        case['early_reconnect'] = {'connect_ticks': draw(st.sampled_from([2, 5, 30, 60])), 'at': draw(st.sampled_from([0, 1, 2])),
                                    'times': draw(st.sampled_from([1, 1, 2]))}
     return case
 
